@@ -2,7 +2,10 @@
 
 Correspondence: generated scene -> REAL ADM -> (a) real select_rendering_items, (b) the same document serialised by
 index -> Lean model (c06driver); canonical items compared in order and as multisets, for the document as built and
-for 3 re-declarations.  Search (direct predicate on the real code alone): real items vs an independent
+for 3 re-declarations (block formats / extra data of every item are read through metadata_source.get_next_block()
+after select_rendering_items returned); the model's validation predicates multitreeOK / wrappedNonempty (hypotheses
+of the theorems) vs the real _validate_pack_channel_multitree / AllocationPacks, also on injected diamonds, pack loops
+and channel-less packs.  Search (direct predicate on the real code alone): real items vs an independent
 comprehension oracle written from the property text, and equality of the item multiset across re-declarations."""
 import random
 import warnings
@@ -32,6 +35,25 @@ THEOREMS = (
     "FmtRenamed.wrappedPacks", "FmtRenamed.outputOf", "FmtRenamed.matrixSpec", "FmtRenamed.itemsOfPack",
     # modes
     "chna_only_all_tracks", "chna_only_problem", "no_programme_all_roots", "mem_rootObjects",
+    # the items, declaratively: valid + unique allocation (C07), track index / silence / matrix sum, per-channel data
+    "select_eq_decl", "itemsOfState_spec", "itemsOfState_spec_wf", "declItemsOfSol_perm", "itemsOfPack_eq_decl",
+    "declItems_regular", "declSingle_eq_specItem",
+    "itemsOfPack_ok_facts", "outputOf_ok_iff", "regular_item_path", "allocProblem_fields", "hoaItem_ok_iff",
+    "hoaMetaOf_ok_iff", "getExtraData_ok_iff", "getPackFormatPath_ok_iff",
+    # matrix track specs = C20's packSpec; their audio = the matrix sum
+    "matrixSpec_eq_packSpec", "matrixSpec_ok_iff", "matrixTrack_meaning", "matrix_item_spec_meaning",
+    # C07's well-formedness of the allocation problems, from the multitree check
+    "allocWF_of_multitree", "allocWF0_of_multitree", "allocWFCheck_of_multitree", "packsWF_of_multitree",
+    "slots_cf_nodup", "wrappedPacks_ids_nodup", "wrappedPacks_cf_nodup",
+    # semantic lemmas of the helpers
+    "minImp_spec", "getPathParam_ok_iff", "getSingleParam_ok_iff", "hoaNorm_ok_iff", "hoaNfc_ok_iff",
+    "hoaSref_ok_iff", "getAvs_some", "getAvs_eq_none_iff", "getAvs_unique", "trackChannel_lt", "wrapOne_shape",
+    # re-ordering an object's own pack / track reference lists
+    "select_perm_own_refs", "ownRefsPerm_itemsOfState", "ownRefs_valid", "valid_retrack", "perm_index_maps",
+    # re-numbering audioContents / audioProgrammes: the same items in the same order, index renamed
+    "select_renumber_contents", "select_renumber_contents_rename", "renameContents_renamed",
+    "select_renumber_programmes", "select_renumber_programmes_rename", "renameProgrammes_renamed",
+    "ProgRenamed.selectProgramme_none",
 )
 
 
@@ -69,6 +91,26 @@ def run_real(b):
         return ("ok", G.item_records(items))
 
 
+def real_wf(b, maps):
+    """what the real code says about the two validation predicates of the model: does
+    `_validate_pack_channel_multitree` pass, and does every AllocationPack of `_PackAllocator` (restricted to the
+    serialised packs) have a channel (None when building them fails, e.g. on a pack loop)."""
+    from ear.core.select_items.validate import _validate_pack_channel_multitree
+    from ear.core.select_items.select_items import _PackAllocator
+    from ear.fileio.adm.exceptions import AdmError
+    try:
+        _validate_pack_channel_multitree(b.adm)
+        mt = 1
+    except AdmError:
+        mt = 0
+    try:
+        packs = _PackAllocator(b.adm).packs
+        ne = int(all(len(p.channels) > 0 for p in packs if id(p.root_pack) in maps["pk"]))
+    except Exception:
+        ne = None
+    return mt, ne
+
+
 def variants(scene, vseeds):
     """The document as built, then re-declarations (declaration order; the last one also child reference lists)."""
     out = []
@@ -88,7 +130,9 @@ class C06(Spec):
     trusted_base = (
         "model Earverif/Model/Adm.lean + SelectItems.lean is a hand transliteration of select_items.py / utils.py / "
         "hoa.py / matrix.py over index-based documents; validate_structure and validate_selected_audioTrackUID are "
-        "not modelled (documents are assumed valid)",
+        "not modelled (documents are assumed valid); of validate_structure the theorems use only multitreeOK (success "
+        "condition of _validate_pack_channel_multitree: no node visited twice by its dfs), evaluated by the driver "
+        "and compared with the real function on every generated document and on injected diamonds / pack loops",
         "pack_allocation.allocate_packs is the C07 model (Earverif/Model/PackAlloc.lean, imported); identities of "
         "AllocationPack objects are modelled as 3*root+variant, of AllocationTrackUID objects as their position",
         "harness/c06_gen.py: serialisation of the real ADM by index (unused common-definition packs/channels are "
@@ -106,7 +150,8 @@ class C06(Spec):
         "scene model: 0..3 programmes x 0..3 contents x 0..8 objects in a DAG with shared sub-objects x 0..2 "
         "complementary groups and selections x 1..6 formats (Objects/DirectSpeakers/HOA; mono, multichannel, nested "
         "packs 2-3 deep; BS.2094 common-definition packs; direct and encode/decode Matrix packs in their 5 usages) x silent tracks x track->trackFormat / track->channelFormat "
-        "referencing x alternativeValueSets x CHNA-only and programme-less modes; every scene is also re-declared in 3 "
+        "referencing x alternativeValueSets x CHNA-only and programme-less modes; a few scenes get a channel-less pack, "
+        "or (validation predicates only, outside the property's quantifier) a diamond or a pack loop; every scene is also re-declared in 3 "
         "random orders; a case is one (scene, declaration order); non-trivial = at least one item selected; "
         "distinct by canonical item list"
     )
@@ -187,6 +232,7 @@ class C06(Spec):
 
     def _run(self, ctx, driver, scenes, with_model=True):
         lines, metas = [], []
+        wlines, wmetas = [], []
         for scene in scenes:
             vseeds = [None] + [ctx.rng.getrandbits(32) for _ in range(3)]
             bs = variants(scene, vseeds)
@@ -198,6 +244,12 @@ class C06(Spec):
             else:
                 ctx.count("real-error:" + reals[0][1].split(":")[0])
             for k, (b, s, real) in enumerate(zip(bs, sers, reals)):
+                if with_model and k in (0, len(bs) - 1):
+                    # validation predicates of the model (hypotheses of the C06 theorems) vs the real validation
+                    wlines.append(" ; ".join(["W"] + s[0].split(" ; ")[1:]))
+                    wmetas.append((scene, vseeds[k], real_wf(b, s[1]), real))
+                if scene["inject"] in G.STRUCTURE_INJECTIONS[:2]:
+                    continue  # rejected by validate_structure: the selection model assumes validated documents
                 ctx.count("declaration-order:" + ("as-built" if k == 0 else "reordered" if k < 3 else "reordered+children"))
                 canon = ("ok", G.canon_index(real[1], s[1])) if real[0] == "ok" else real
                 lines.append(s[0])
@@ -206,6 +258,24 @@ class C06(Spec):
             for scene, vs, canon in metas:
                 ctx.case(("search", canon[1] if canon[0] == "err" else tuple(canon[1])), bool(canon[1]))
             return
+        wouts = driver.run(wlines)
+        for (scene, vs, (mt, ne), real), line, out in zip(wmetas, wlines, wouts):
+            inp = {"scene": scene, "redeclaration_seed": vs, "driver_line": line}
+            want = "wf %d %s" % (mt, "?" if ne is None else str(ne))
+            got = out.split()
+            if len(got) != 3 or got[0] != "wf":
+                ctx.disagree("driver rejected a generated document (validation predicates)", inp, out, want)
+            elif int(got[1]) != mt or (ne is not None and int(got[2]) != ne):
+                ctx.disagree("_validate_pack_channel_multitree / AllocationPack channels vs Earverif.Adm.multitreeOK / "
+                             "wrappedNonempty", inp, out, want)
+            else:
+                ctx.validated()
+                ctx.count("validation-predicates:multitree=%d nonempty=%s" % (mt, "?" if ne is None else ne))
+                if mt == 0:
+                    # (whether select_rendering_items rejects such a document is C14's property, not C06's)
+                    ctx.count("non-multitree-document:" + ("rejected" if real[0] == "err" else "accepted"))
+                    ctx.case(("wf", out, real[1] if real[0] == "err" else "ok"), True,
+                             sample={"driver_line": line[:400], "real": real[1] if real[0] == "err" else "ok"})
         outs = driver.run(lines)
         for (scene, vs, canon), line, out in zip(metas, lines, outs):
             inp = {"scene": scene, "redeclaration_seed": vs, "driver_line": line}
@@ -253,6 +323,12 @@ class C06(Spec):
                 inj = "extra-silent"
             elif r < 0.15:
                 inj = "alloc-stress"
+            elif r < 0.17:
+                inj = "diamond"
+            elif r < 0.18:
+                inj = "pack-loop"
+            elif r < 0.19:
+                inj = "empty-pack"
             sc = G.gen_scene(ctx.rng, inject=inj)
             if inj:
                 ctx.count("scene-with-injected-error:" + inj)
@@ -390,27 +466,49 @@ SPEC = C06()
 
 REGISTRY = dict(
     text="PARTIAL: Lean theorems over a transliterated model of select_rendering_items (Earverif.Adm.*; allocation = "
-    "the C07 allocator model, Matrix packs included): select_eq_spec (generator pipeline = comprehension over "
-    "programme contents / root objects / object paths / allocated channels, including rejected documents), "
-    "select_once_per_path + specStates_nodup + mem_specStates_iff, select_excludes_ignored + mem_ignored_iff, "
-    "extra_data_from_own_path / importance_from_own_path + one lemma per ExtraData field, "
-    "select_programme_lowest_id / select_programme_order_independent, chna_only_all_tracks, no_programme_all_roots. "
-    "Declaration-order independence: select_perm_partial (re-ordering programme->content, content->object, "
-    "object->sub-object reference lists), select_perm_objects(_rename) (re-numbering the audioObjects with all "
-    "references remapped: same items up to Perm, object paths renamed, success preserved), "
-    "select_perm_formats(_rename)_partial (re-numbering audioPackFormats / audioChannelFormats / audioTrackUIDs / "
-    "stream+track formats: items equal up to Perm and renaming, via C07 uniqueness of the valid allocation). "
+    "the C07 allocator model, Matrix packs included). (1) select_eq_decl: on a document that passes the multitree "
+    "check, whenever selection returns, items = [item | state in specStates (programme contents / root objects / "
+    "object paths avoiding ignored complementary objects; select_eq_spec, select_once_per_path, specStates_nodup, "
+    "mem_specStates_iff, select_excludes_ignored, mem_ignored_iff), allocated pack in THE allocation of the state, "
+    "item in declItems] where the allocation is characterised declaratively - C07 Valid for the state's problem "
+    "(allocProblem_fields) and unique up to permutation among allocations that use no channel-less pack "
+    "(itemsOfState_spec; itemsOfState_spec_wf: among all valid ones under C07's WF) - and every item field is an "
+    "explicit function of it: track = DirectTrackSpec(trackIndex-1) / SilentTrackSpec of the channel's slot, or for a "
+    "matrix pack C20's packSpec of the channel tree (outputOf_ok_iff, matrixSpec_eq_packSpec; its audio is the matrix "
+    "sum: matrixTrack_meaning / matrix_item_spec_meaning via C20 matrix_pack_spec_meaning); pack path = the unique "
+    "path to the channel = the AllocationChannel's pack_formats (getPackFormatPath_ok_iff, regular_item_path, "
+    "itemsOfPack_ok_facts); block formats, frequency, absoluteDistance (getPathParam_ok_iff), object start/duration/"
+    "gain/mute/offset with alternativeValueSet override (extraOf_* lemmas, getAvs_some/eq_none_iff/unique), screen, "
+    "importances = minima with None as +inf (minImp_spec); HOA: one item per pack, tracks in channel order, merged "
+    "parameters all channels agree on (hoaItem_ok_iff, hoaMetaOf_ok_iff, getSingleParam_ok_iff, hoaNorm/Nfc/Sref_ok_iff). "
+    "(2) C07's well-formedness of the allocation problems is derived, not assumed: allocWF0_of_multitree (from "
+    "multitreeOK = success condition of _validate_pack_channel_multitree, slots_cf_nodup; pack/track identities "
+    "distinct by construction), allocWF_of_multitree (+ wrappedNonempty, which validate_structure does NOT establish; "
+    "channel-less packs are never allocated: selectPackMapping_dropEmpty). (3) Declaration-order independence: "
+    "select_perm_partial (programme->content, content->object, object->sub-object lists), select_perm_objects(_rename) "
+    "(re-numbering audioObjects), select_perm_own_refs (an object's own pack / track reference lists, silent tracks "
+    "included: success preserved, items equal up to Perm), select_perm_formats(_rename)_partial (re-numbering packs / "
+    "channels / trackUIDs / stream+track formats: items equal up to Perm and renaming), select_programme_lowest_id / "
+    "select_programme_order_independent, select_renumber_contents(_rename) / select_renumber_programmes(_rename) "
+    "(re-numbering audioContents / audioProgrammes with distinct ids: the same result - items in the same order with "
+    "the index renamed, or the same error); chna_only_all_tracks, no_programme_all_roots. "
     "Left to correspondence + search (not proved): for the format re-numbering, that selection succeeds on the "
-    "re-numbered document whenever it does on the original, and CHNA-only mode; re-ordering of an object's "
-    "pack/track reference lists; re-numbering of contents/programmes; validate_structure. The model is tied to the "
-    "code on every run: generated scenes (incl. Matrix packs and ambiguous/conflicting allocations) are built as "
-    "real ADM documents, serialised by index to the Lean driver, and canonical items (incl. nested track specs) "
-    "compared in order for the document and 3 re-declarations; the direct predicate compares the real items with an "
-    "independent comprehension oracle and across re-declarations as multisets.",
+    "re-numbered document whenever it does on the original, and CHNA-only mode; "
+    "that validate_structure establishes multitreeOK (C14 proves it for its own dfs model; here compared with the "
+    "real validation on generated documents incl. injected diamonds and pack loops). The model is tied to the code "
+    "on every run: generated scenes (incl. Matrix packs, ambiguous/conflicting allocations, channel-less packs) are "
+    "built as real ADM documents, serialised by index to the Lean driver, and canonical items (incl. nested track "
+    "specs; block formats and extra data read through metadata_source.get_next_block() after selection returned) "
+    "compared in order for the document and 3 re-declarations; multitreeOK / wrappedNonempty are compared with "
+    "_validate_pack_channel_multitree / the real AllocationPacks; the direct predicate compares the real items with "
+    "an independent comprehension oracle and across re-declarations as multisets.",
     note="Trusted: Lean kernel; hand transliteration of select_items.py/utils.py/hoa.py/matrix.py + C07 allocator model "
     "+ correspondence harness (index serialisation, canonicalisation, labels); validate_structure is outside the "
-    "model. Quantifier limits: valid documents, distinct fixed-width programme ids.",
-    technique="Lean 4 proof (list comprehension equalities, Nodup/Perm, renaming equivariance, C07 uniqueness) about a "
-    "transliterated model + differential correspondence with the real select_rendering_items + oracle search",
+    "model (its multitree result enters as the decidable hypothesis multitreeOK, cross-checked against the real "
+    "function). Quantifier limits: documents that pass validation, distinct fixed-width programme ids. Imports "
+    "Props/C07 (uniqueness), Props/C20 (matrix_pack_spec_meaning), Proofs/C14Empty (selectPackMapping_dropEmpty).",
+    technique="Lean 4 proof (list comprehension equalities, Nodup/Perm, renaming equivariance, C07 uniqueness, iff-"
+    "characterisations of the helper functions) about a transliterated model + differential correspondence with the "
+    "real select_rendering_items + oracle search",
     design_ref="DESIGN.md section 4, C06",
 )
